@@ -1,6 +1,7 @@
 CONSTANTS
   Calls <- TCalls
-  NConns <- TNConns
+  NConns = 2
+  MaxCalls = 80
   Unknown = 0
   MaxDrops = 1000000
   MaxNoise = 1000000
